@@ -270,6 +270,10 @@ def _shadow_cmp(t, cycles, active, m_active, loaded, m_loaded, q, m_q, when=''):
     if loaded != m_loaded:
         raise Bad('loaded_shadow', dict(expected=m_loaded, observed=loaded, ctx=ctx), t, m_loaded, loaded,
                   'loaded=%d, shadow says %d (inputs of the deciding cycle: %s; %s)' % (loaded, m_loaded, ctx, when))
+    if not m_loaded and q != 0:
+        # "... until reset, done or a restart clears them": the word is cleared together with the loaded flag
+        raise Bad('q_not_cleared', dict(ctx=ctx), t, 0, q,
+                  'q=%#x while loaded=0: reset, done or restart must clear the held word (%s; %s)' % (q, ctx, when))
     if m_loaded and q != m_q:
         raise Bad('q_shadow', dict(ctx=ctx, relation='zero' if q == 0 else 'other'), t, m_q, q,
                   'q=%#x while loaded, most recent beat transferred while active carried %#x (%s; %s)' % (q, m_q, ctx, when))
@@ -529,7 +533,7 @@ def _is_nontrivial(dut, ev):
 def run_check(run, tier, seed, shard):
     run.assume('environment: ap_done only in a cycle where, since the last ap_start/ap_reset, a beat completed while active and no beat is '
                'pending (Reg2Axi: tvalid low); everything else is free per cycle')
-    run.assume('Axi2Reg: a reset, done or restart in the same cycle as a beat wins (state cleared); q is judged only while loaded')
+    run.assume('Axi2Reg: a reset, done or restart in the same cycle as a beat wins (state cleared); while loaded q must equal the latest beat, while not loaded q must be 0 ("clears them": the word is cleared with the flag)')
     run.assume('Reg2Axi, weakest reading: VALID may stay high after an acceptance (counted as peer_accepts_while_inactive / '
                'back_to_back_accepts, never a violation); "accepted beat" for sent = tvalid & tready & active; only the low W bits of tdata '
                'are judged; active follows start/reset/done with reset and done winning over start (same shadow for both adapters)')
